@@ -65,13 +65,13 @@ void h_verify(void) {
     unsigned char *proof, *extra; secp256k1_context ctx; int ret; uint64_t minv = 77, maxv = 77;
     size_t off = 0; int hexp, hman, hret; uint64_t hscale, hmin, hmax;
     __CPROVER_assume(plen <= MAXP && eclen <= MAXE);
-    INPUT_BUF(pf, proof, plen, 80);
+    INPUT_BUF(pf, proof, plen, 32);
     INPUT_BUF(ex, extra, eclen, 8);
     verif_ctx_init(&ctx); ctx.hash_ctx.fn_sha256_compression = secp256k1_sha256_transform;
     api_reset();
     ret = secp256k1_rangeproof_verify(&ctx, use_min ? &minv : NULL, use_max ? &maxv : NULL, use_commit ? &commit : NULL, use_proof ? proof : NULL, plen,
                                       use_extra ? extra : NULL, eclen, use_gen ? &gen : NULL);
-    WITNESS_BUF(pf, proof, plen, 80);
+    WITNESS_BUF(pf, proof, plen, 32);
     __CPROVER_assert(ret == 0 || ret == 1, "C07 rangeproof_verify: returns 0 or 1");
     __CPROVER_assert(g_error == 0, "C07 rangeproof_verify: never the error callback");
     if (use_min && use_max && use_commit && use_proof && use_gen && (use_extra || eclen == 0)) {
@@ -98,7 +98,7 @@ void h_rewind(void) {
     INPUT(secp256k1_pedersen_commitment, commit); INPUT(secp256k1_generator, gen); INPUT_ARR(unsigned char, nonce, 32);
     unsigned char *proof, *extra, *msg; unsigned char blind[32]; secp256k1_context ctx; int ret; uint64_t minv = 77, maxv = 77, value = 77; size_t outlen;
     __CPROVER_assume(plen <= MAXP && eclen <= MAXE && outlen_in <= MAXM);
-    INPUT_BUF(pf, proof, plen, 80);
+    INPUT_BUF(pf, proof, plen, 32);
     INPUT_BUF(ex, extra, eclen, 8);
     INPUT_BUF(mg, msg, outlen_in, 8);
     verif_ctx_init(&ctx); ctx.hash_ctx.fn_sha256_compression = secp256k1_sha256_transform; ctx.ecmult_gen_ctx.built = 1;
@@ -107,7 +107,7 @@ void h_rewind(void) {
     ret = secp256k1_rangeproof_rewind(&ctx, use_blind ? blind : NULL, use_value ? &value : NULL, use_msg ? msg : NULL, use_outlen ? &outlen : NULL, use_nonce ? nonce : NULL,
                                       use_min ? &minv : NULL, use_max ? &maxv : NULL, use_commit ? &commit : NULL, use_proof ? proof : NULL, plen,
                                       use_extra ? extra : NULL, eclen, use_gen ? &gen : NULL);
-    WITNESS_BUF(pf, proof, plen, 80);
+    WITNESS_BUF(pf, proof, plen, 32);
     __CPROVER_assert(ret == 0 || ret == 1, "C07 rangeproof_rewind: returns 0 or 1");
     __CPROVER_assert(g_error == 0, "C07 rangeproof_rewind: never the error callback");
     if (use_commit && use_proof && use_min && use_max && (use_msg || !use_outlen) && use_nonce && (use_extra || eclen == 0) && use_gen) {
